@@ -12,6 +12,7 @@ use crate::engine::*;
 use crate::model::text;
 use crate::model::*;
 use crate::props::common::*;
+use crate::universe as uni;
 use owlchess::movegen::{cell_attackers, legal, semilegal};
 use owlchess::moves::{make_move_unchecked, unmake_move_unchecked};
 use owlchess::verif as hk;
@@ -354,6 +355,103 @@ fn maxmob(run: &mut Run, two_steps: bool) {
     );
 }
 
+/// repetition lines: a four-ply cycle repeated eight times (the start position occurs nine times)
+const REP_LINES: [(&str, [&str; 4]); 3] = [
+    ("rnbqkbnr/pppppppp/8/8/8/8/PPPPPPPP/RNBQKBNR w KQkq - 0 1", ["g1f3", "g8f6", "f3g1", "f6g8"]),
+    ("4k3/8/8/8/8/8/8/R3K3 w - - 0 1", ["a1a2", "e8d8", "a2a1", "d8e8"]),
+    ("r3k2r/p1ppqpb1/bn2pnp1/3PN3/1p2P3/2N2Q1p/PPPBBPPP/R3K2R w - - 0 1", ["a1b1", "a8b8", "b1a1", "b8a8"]),
+];
+
+fn chain_line(family: u8, idx: usize, a: usize, b: usize, max: usize) -> Option<(Pos, Vec<Mv>)> {
+    if family == 0 {
+        let seeds = uni::seeds();
+        let s = *seeds.get(idx)?;
+        Some((s, uni::long_line(&s, a, b, max)))
+    } else {
+        let (fen, cyc) = REP_LINES.get(idx)?;
+        let start = text::read_fen(fen)?;
+        let mut p = start;
+        let mut v = Vec::new();
+        for i in 0..max.min(32) {
+            let m = p.legal().into_iter().find(|m| text::uci(*m) == cyc[i % 4])?;
+            v.push(m);
+            p = p.apply(m);
+        }
+        Some((start, v))
+    }
+}
+
+/// CHAINSWEEP: every query of a move chain after every push and every pop of a long or
+/// repetitive game, under the monitors of the build configuration (no oracle beyond "no panic,
+/// no abort": the values are judged by C13, C14 and C17)
+fn chain_sweep(ctx: &mut Ctx, family: u8, idx: usize, a: usize, b: usize, max: usize) {
+    use owlchess::chain::{GameStatusPolicy, NumberPolicy};
+    use owlchess::moves::Style;
+    use owlchess::types::OutcomeFilter;
+    use owlchess::MoveChain;
+    let Some((start, moves)) = chain_line(family, idx, a, b, max) else { return };
+    let Some(board) = board_of(&start) else { return };
+    set_slot_chainline(family, idx as u16, a as u16, b as u16, max as u16);
+    let case = || json!({"kind": "chainline", "family": family, "idx": idx, "a": a, "b": b, "max": max});
+    let r = guarded(|| {
+        let mut chain = MoveChain::new(board.clone());
+        let mut p = start;
+        let mut n = 0u64;
+        let probe = |c: &MoveChain| {
+            let _ = c.calc_outcome();
+            for f in [OutcomeFilter::Force, OutcomeFilter::Strict, OutcomeFilter::Relaxed] {
+                let mut d = c.clone();
+                let _ = d.set_auto_outcome(f);
+                let _ = d.is_finished();
+            }
+            let mut w = c.walk();
+            w.end();
+            let _ = w.prev().map(|(b, m)| (b.zobrist_hash(), m));
+            let _ = w.next().map(|(b, m)| (b.zobrist_hash(), m));
+            let _ = c.last().as_fen();
+        };
+        probe(&chain);
+        for &m in &moves {
+            let Ok(mv) = to_move(&p, m) else { break };
+            if chain.push(mv).is_err() {
+                break;
+            }
+            p = p.apply(m);
+            n += 1;
+            probe(&chain);
+        }
+        let _ = chain.uci().to_string();
+        for style in [Style::San, Style::SanUtf8, Style::Uci] {
+            let _ = chain.styled(NumberPolicy::FromBoard, style, GameStatusPolicy::Show).to_string();
+        }
+        while chain.pop().is_some() {
+            n += 1;
+            probe(&chain);
+        }
+        n
+    });
+    match r {
+        Ok(n) => {
+            ctx.states += n + 1;
+            ctx.transitions += n;
+        }
+        Err(msg) => ctx.violate(case(), format!("a chain query panicked during the sweep of this game: {}", msg)),
+    }
+}
+
+fn chain_sweeps(run: &mut Run, thorough: bool) {
+    let lp = uni::long_params(thorough);
+    let lmax = uni::long_max(thorough);
+    run.par_shards(&format!("CHAINSWEEP: every chain query after every push and pop of {} LONG games (<= {} plies) and {} repetition games (nine occurrences)", lp.len(), lmax, REP_LINES.len()), lp.len() + REP_LINES.len(), |ctx, i| {
+        if i < lp.len() {
+            let (s, a, b) = lp[i];
+            chain_sweep(ctx, 0, s, a, b, lmax);
+        } else {
+            chain_sweep(ctx, 1, i - lp.len(), 0, 0, 32);
+        }
+    });
+}
+
 pub fn run(run: &mut Run) {
     run.counter_names = NAMES;
     run.max_idx = MAX_IDX;
@@ -380,6 +478,7 @@ pub fn run(run: &mut Run) {
             }
         });
     }
+    chain_sweeps(run, thorough);
     spawn_release_leg(run, "release-configuration leg (same sweep, optimised build)");
     if thorough {
         // additional monitors (not the deciding step): AddressSanitizer build of the release
@@ -438,6 +537,7 @@ pub fn leg(run: &mut Run) {
             append_until_full(ctx, p);
         }
     });
+    chain_sweeps(run, thorough);
 }
 
 pub fn replay(case: &Value, ctx: &mut Ctx) {
@@ -451,6 +551,10 @@ pub fn replay(case: &Value, ctx: &mut Ctx) {
                     ctx.violate(v.case, v.msg);
                 }
             }
+        }
+        Some("chainline") => {
+            let g = |k: &str| case[k].as_u64().unwrap_or(0) as usize;
+            chain_sweep(ctx, g("family") as u8, g("idx"), g("a"), g("b"), g("max"));
         }
         _ => {
             if case["what"].as_str() == Some("append until full") {
